@@ -116,7 +116,12 @@ class ProcState(object):
         if self.path != other.path:
             added = [p for p in other.path if p not in self.path]
             removed = [p for p in self.path if p not in other.path]
-            out.append(('sys.path', 'removed=%r' % (removed,), 'added=%r' % (added,)))
+            if not added and not removed:
+                k = next(i for i, (a, b) in enumerate(zip(self.path + [None], other.path + [None])) if a != b)
+                out.append(('sys.path', 'same entries', 'in another order or multiplicity (first difference at index %d: %r '
+                            '-> %r)' % (k, (self.path + [None])[k], (other.path + [None])[k])))
+            else:
+                out.append(('sys.path', 'removed=%r' % (removed,), 'added=%r' % (added,)))
         if self.filters != other.filters:
             out.append(('warnings.filters', '%d filters' % len(self.filters), '%d filters; new=%r' % (
                 len(other.filters), [f for f in other.filters if f not in self.filters][:3])))
